@@ -65,9 +65,11 @@ Proof.
     intros m. unfold step_D, next_of, next_D. cbn [step]. rewrite (Nat.eqb_sym n m). destruct (snd (watch_next st n)); reflexivity.
   - (* OClose *) apply Hnil; [apply INV_close; exact HI|reflexivity|intros m; reflexivity].
   - (* OPublish *)
-    unfold publish_one. destruct (s_queue st) as [|b q'] eqn:Eq; cbn [fst].
+    unfold publish_one. destruct (s_stale st) as [|k] eqn:Ek.
+    2:{ cbn [fst]. apply Hnil; [exact HI|reflexivity|intros m; reflexivity]. }
+    destruct (s_queue st) as [|b q'] eqn:Eq; cbn [fst].
     + apply Hnil; [exact HI|reflexivity|intros m; reflexivity].
-    + apply Hnil; [apply INV_publish; assumption|reflexivity|intros m; reflexivity].
+    + apply Hnil; [rewrite <- Ek; apply INV_publish; assumption|reflexivity|intros m; reflexivity].
   - apply Hnil; [exact HI|reflexivity|intros m; reflexivity].
   - (* OEvict *) apply Hnil; [apply INV_evict; exact HI|reflexivity|intros m; reflexivity].
 Qed.
@@ -217,15 +219,16 @@ Proof. induction La as [|c La IH]; cbn; [reflexivity|]. rewrite contrib_ev_match
 Lemma glog_app a : forall st b, glog st (a ++ b) = glog st a ++ glog (run st a) b.
 Proof. induction a as [|o a IH]; intros st b; cbn; [reflexivity|]. rewrite IH, app_assoc. reflexivity. Qed.
 
-(* ================= C18_watch_complete_ordered (restore-free runs from a clean state) ================= *)
-Theorem watch_complete_ordered st0 pre q post :
+(* ================= C18_watch_complete_ordered: one epoch (restore-free run from a clean state) ================= *)
+Lemma watch_epoch_core st0 pre q post :
   clean st0 -> forallb no_restore (pre ++ OWatch q :: post) = true ->
   let ops := pre ++ OWatch q :: post in
   let n := List.length (s_watches (run st0 pre)) in
   snd (step (run st0 pre) (OWatch q)) = OutWatch n /\
   exists Lp La,
     glog st0 ops = Lp ++ La /\ (List.length Lp <= List.length (glog st0 pre))%nat /\
-    (exists rest, deliv n st0 ops ++ rest = ideal q (replay (s_res st0) Lp) La) /\
+    (exists w rest, nth_error (s_watches (run st0 ops)) n = Some w /\ w_query w = q /\
+        deliv n st0 ops ++ evs q (w_events w) ++ rest = ideal q (replay (s_res st0) Lp) La) /\
     (s_queue (run st0 ops) = [] -> snd (step (run st0 ops) (ONext n)) = OutNoEvent ->
      deliv n st0 ops = ideal q (replay (s_res st0) Lp) La).
 Proof.
@@ -265,7 +268,7 @@ Proof.
   assert (Hideal : evs q (sn_batch (w_snap w)) ++ flat_map (contrib (watch_subject q) q) La = ideal q (replay T0 Lp) La).
   { rewrite Hsb2, evs_snapshot, flat_contrib. unfold ideal. rewrite <- app_assoc. reflexivity. }
   rewrite Hideal in Heq. cbn [app] in Heq. split.
-  - exists (evs q (w_events w) ++ rest). exact Heq.
+  - exists w, rest. split; [exact Hn2|]. split; [exact Hqw|exact Heq].
   - intros Hqe Hno. cbn [step] in Hno. unfold watch_next in Hno. rewrite Hn2 in Hno. rewrite Hqw in Hno.
     destruct (drain q (w_events w)) as [[e r']|] eqn:Ed; [discriminate|].
     rewrite (drain_none _ _ Ed) in Heq. cbn [app] in Heq.
@@ -276,6 +279,128 @@ Proof.
     destruct res as [[e r']|]; [discriminate|].
     destruct (scan_raws_spec _ _ _ _ _ _ _ (qraws (watch_subject q) (s_queue (run st0 ops))) Es) as (c & _ & _ & _ & Hres).
     rewrite Hqw, Hsubj in G5. rewrite Hres, Hqe in G5. cbn in G5. subst rest. rewrite app_nil_r in Heq. exact Heq.
+Qed.
+
+Theorem watch_complete_ordered st0 pre q post :
+  clean st0 -> forallb no_restore (pre ++ OWatch q :: post) = true ->
+  let ops := pre ++ OWatch q :: post in
+  let n := List.length (s_watches (run st0 pre)) in
+  snd (step (run st0 pre) (OWatch q)) = OutWatch n /\
+  exists Lp La,
+    glog st0 ops = Lp ++ La /\ (List.length Lp <= List.length (glog st0 pre))%nat /\
+    (exists rest, deliv n st0 ops ++ rest = ideal q (replay (s_res st0) Lp) La) /\
+    (s_queue (run st0 ops) = [] -> snd (step (run st0 ops) (ONext n)) = OutNoEvent ->
+     deliv n st0 ops = ideal q (replay (s_res st0) Lp) La).
+Proof.
+  intros Hc Hnr ops n. destruct (watch_epoch_core st0 pre q post Hc Hnr) as (H1 & Lp & La & H2 & H3 & (w & rest & _ & _ & H4) & H5).
+  split; [exact H1|]. exists Lp, La. repeat (split; [assumption|]). split; [|exact H5].
+  exists (evs q (w_events w) ++ rest). exact H4.
+Qed.
+
+(* ---------- a watch that is no longer open only hands out what it had already received ---------- *)
+Definition closed_prefix (n : nat) (q : query) (X : list wev) (st : store) (D : list wev) : Prop :=
+  exists w, nth_error (s_watches st) n = Some w /\ w_query w = q /\ w_state w <> WOpen /\
+            exists rest, D ++ evs q (w_events w) ++ rest = X.
+
+Lemma watches_other st o :
+  match o with OWatch _ | ONext _ | OClose _ | ORestore _ => True | _ => s_watches (fst (step st o)) = s_watches st end.
+Proof.
+  destruct o; try exact I; cbn [step fst]; try reflexivity.
+  - assert (fst (backend_write st r) = fst (store_write (set_vsn st (s_vsn st + 1)) (with_version r (s_vsn st + 1)) (r_version r))) as ->.
+    { unfold backend_write. destruct (store_write _ _ _) as [s1 o1]. destruct o1; reflexivity. }
+    destruct (store_write_cases (set_vsn st (s_vsn st + 1)) (with_version r (s_vsn st + 1)) (r_version r)) as [[_ ->]|(_ & -> & _)]; reflexivity.
+  - destruct (store_write_cases st r vsn) as [[_ ->]|(_ & -> & _)]; reflexivity.
+  - destruct (store_delete_cases st k uid vsn) as [(ex & _ & _ & _ & ->)|(_ & ->)]; reflexivity.
+  - unfold publish_one. break_match; reflexivity.
+Qed.
+
+Lemma closed_step n q X st D o :
+  closed_prefix n q X st D -> closed_prefix n q X (fst (step st o)) (D ++ next_of n st o).
+Proof.
+  intros (w & Hn & Hq & Hs & rest & Heq).
+  assert (Hsame : s_watches (fst (step st o)) = s_watches st -> next_of n st o = [] ->
+                  closed_prefix n q X (fst (step st o)) (D ++ next_of n st o)).
+  { intros Hw Hno. rewrite Hno, app_nil_r. exists w. rewrite Hw. eauto. }
+  pose proof (watches_other st o) as Hwo.
+  destruct o; try (apply Hsame; [exact Hwo|reflexivity]).
+  - (* OWatch *) rewrite app_nil_r. exists w. split; [|eauto]. cbn [step]. unfold watch_open.
+    destruct (cache_get (watch_subject q0) (s_cache st)); cbn [fst s_watches]; (rewrite nth_error_app1; [exact Hn|apply nth_error_Some; congruence]).
+  - (* ONext *) unfold next_of. cbn [step]. unfold watch_next.
+    destruct (nth_error (s_watches st) n0) as [w0|] eqn:Hm.
+    2:{ cbn [fst snd]. rewrite app_nil_r. exists w. eauto. }
+    destruct (Nat.eqb n0 n) eqn:E.
+    + apply Nat.eqb_eq in E. subst n0. rewrite Hn in Hm. injection Hm as <-. rewrite Hq.
+      destruct (drain q (w_events w)) as [[e r']|] eqn:Ed; cbn [fst snd].
+      * eexists. unfold set_watch. cbn [s_watches]. change (firstn n (s_watches st) ++ ?x :: skipn (S n) (s_watches st)) with (set_nth n x (s_watches st)).
+        rewrite (nth_error_set_nth n n _ w _ Hn), Nat.eqb_refl. split; [reflexivity|]. cbn [w_query w_state w_events]. split; [first [exact Hq|reflexivity]|]. split; [exact Hs|].
+        exists rest. rewrite (drain_some _ _ _ _ Ed) in Heq. rewrite <- Heq, <- !app_assoc. reflexivity.
+      * rewrite (drain_none _ _ Ed) in Heq. destruct (w_state w) eqn:Est; [contradiction| |]; cbn [fst snd]; rewrite app_nil_r;
+          (eexists; unfold set_watch; cbn [s_watches];
+           change (firstn n (s_watches st) ++ ?x :: skipn (S n) (s_watches st)) with (set_nth n x (s_watches st));
+           rewrite (nth_error_set_nth n n _ w _ Hn), Nat.eqb_refl; split; [reflexivity|]; cbn [w_query w_state w_events];
+           split; [first [exact Hq|reflexivity]|]; split; [discriminate|]; exists rest; exact Heq).
+    + (* another watch *)
+      match goal with |- closed_prefix _ _ _ (fst ?x) _ => remember x as res eqn:Hres end.
+      apply Nat.eqb_neq in E.
+      assert (Hkeep : forall w1, nth_error (s_watches (set_watch st n0 w1)) n = Some w).
+      { intros w1. unfold set_watch. cbn [s_watches]. change (firstn n0 (s_watches st) ++ w1 :: skipn (S n0) (s_watches st)) with (set_nth n0 w1 (s_watches st)).
+        rewrite (nth_error_set_nth n0 n w1 w0 _ Hm). assert (Nat.eqb n n0 = false) as -> by (apply Nat.eqb_neq; congruence). exact Hn. }
+      assert (Hf : exists w1, fst res = set_watch st n0 w1) by (subst res; break_match; cbn [fst]; eauto).
+      destruct Hf as (w1 & Hf). rewrite Hf.
+      match goal with |- closed_prefix _ _ _ _ (D ++ ?t) => replace t with (@nil wev) by (destruct (snd res); reflexivity) end.
+      rewrite app_nil_r. exists w. split; [apply Hkeep|eauto].
+  - (* OClose *) rewrite app_nil_r. cbn [step]. unfold watch_close. destruct (nth_error (s_watches st) n0) as [w0|] eqn:Hm; [|exists w; eauto].
+    set (w1 := Watch (w_subj w0) (w_query w0) (match w_state w0 with WOpen => WUnsub | x => x end) true (w_snap w0) (w_pos w0) (w_events w0) (w_idx w0)).
+    assert (Hres : exists w', nth_error (s_watches (set_watch st n0 w1)) n = Some w' /\ w_query w' = q /\ w_state w' <> WOpen /\ w_events w' = w_events w).
+    { unfold set_watch. cbn [s_watches]. change (firstn n0 (s_watches st) ++ w1 :: skipn (S n0) (s_watches st)) with (set_nth n0 w1 (s_watches st)).
+      rewrite (nth_error_set_nth n0 n w1 w0 _ Hm). destruct (Nat.eqb n n0) eqn:E.
+      - apply Nat.eqb_eq in E. subst n0. rewrite Hn in Hm. injection Hm as <-. exists w1. split; [reflexivity|]. cbn. split; [exact Hq|]. split; [destruct (w_state w); discriminate|reflexivity].
+      - exists w. auto. }
+    destruct Hres as (w' & H1 & H2 & H3 & H4).
+    exists w'. split; [|split; [exact H2|split; [exact H3|exists rest; rewrite H4; exact Heq]]].
+    break_match; cbn [fst s_watches]; exact H1.
+  - (* ORestore *) rewrite app_nil_r. exists (force_close w).
+    change (s_watches (fst (step st (ORestore l)))) with (map force_close (s_watches st)). rewrite nth_error_map, Hn. split; [reflexivity|].
+    cbn. split; [exact Hq|]. split; [destruct (w_state w); discriminate|eauto].
+Qed.
+
+Lemma closed_run n q X ops : forall st D,
+  closed_prefix n q X st D -> closed_prefix n q X (run st ops) (D ++ deliv n st ops).
+Proof.
+  induction ops as [|o ops IH]; intros st D H; cbn [run deliv]; [rewrite app_nil_r; exact H|].
+  rewrite app_assoc. apply IH. apply closed_step. exact H.
+Qed.
+
+Lemma deliv_app n a : forall st b, deliv n st (a ++ b) = deliv n st a ++ deliv n (run st a) b.
+Proof. induction a as [|o a IH]; intros st b; cbn; [reflexivity|]. rewrite IH, app_assoc. reflexivity. Qed.
+
+(* ================= C18_watch_complete_ordered: all schedules =================
+   [pre ++ OWatch q :: mid] is the restore-free stretch around the open, starting in a clean state
+   (the initial state, or the state right after ANY restore: restore_clean); [post] is whatever
+   follows, beginning with the next restore (if any) and arbitrary after it. *)
+Theorem watch_complete_ordered_all st0 pre q mid post :
+  clean st0 -> forallb no_restore (pre ++ OWatch q :: mid) = true ->
+  (post = [] \/ exists l post', post = ORestore l :: post') ->
+  let ops1 := pre ++ OWatch q :: mid in
+  let n := List.length (s_watches (run st0 pre)) in
+  snd (step (run st0 pre) (OWatch q)) = OutWatch n /\
+  exists Lp La,
+    glog st0 ops1 = Lp ++ La /\ (List.length Lp <= List.length (glog st0 pre))%nat /\
+    (exists rest, deliv n st0 (ops1 ++ post) ++ rest = ideal q (replay (s_res st0) Lp) La) /\
+    (s_queue (run st0 ops1) = [] -> snd (step (run st0 ops1) (ONext n)) = OutNoEvent ->
+     deliv n st0 ops1 = ideal q (replay (s_res st0) Lp) La).
+Proof.
+  intros Hc Hnr Hpost ops1 n.
+  destruct (watch_epoch_core st0 pre q mid Hc Hnr) as (H1 & Lp & La & H2 & H3 & (w & rest & Hn & Hq & H4) & H5).
+  fold ops1 in H2, Hn, H4, H5. fold n in Hn, H4, H5. split; [exact H1|]. exists Lp, La. repeat (split; [assumption|]). split; [|exact H5].
+  destruct Hpost as [->|(l & post' & ->)].
+  - rewrite app_nil_r. exists (evs q (w_events w) ++ rest). exact H4.
+  - rewrite deliv_app. cbn [deliv]. change (next_of n (run st0 ops1) (ORestore l)) with (@nil wev). cbn [app].
+    assert (Hcl : closed_prefix n q (ideal q (replay (s_res st0) Lp) La) (fst (step (run st0 ops1) (ORestore l))) (deliv n st0 ops1)).
+    { exists (force_close w). change (s_watches (fst (step (run st0 ops1) (ORestore l)))) with (map force_close (s_watches (run st0 ops1))). rewrite nth_error_map, Hn. split; [reflexivity|]. cbn.
+      split; [exact Hq|]. split; [destruct (w_state w); discriminate|]. exists rest. exact H4. }
+    apply (closed_run _ _ _ post') in Hcl. destruct Hcl as (w' & _ & _ & _ & rest' & Heq).
+    exists (evs q (w_events w') ++ rest'). exact Heq.
 Qed.
 
 (* ---------- what a watch returns has been committed ---------- *)
